@@ -312,6 +312,21 @@ pub fn det_map<K: std::hash::Hash + Eq, V>() -> AHashMap<K, V> {
     AHashMap::from(m)
 }
 
+pub fn det_set<K: std::hash::Hash + Eq>() -> ahash::AHashSet<K> {
+    let m: std::collections::HashSet<K, RandomState> = std::collections::HashSet::with_hasher(RandomState::with_seeds(11, 22, 33, 44));
+    ahash::AHashSet::from(m)
+}
+
+/// A wallet whose hash containers iterate in an order that is a pure function of their insertion
+/// history (the wallet picks slips by iterating over a hash set).
+pub fn det_wallet(sk: SaitoPrivateKey, pk: SaitoPublicKey) -> Wallet {
+    let mut w = Wallet::new(sk, pk);
+    w.slips = det_map();
+    w.unspent_slips = det_set();
+    w.staking_slips = det_set();
+    w
+}
+
 // ---------------------------------------------------------------------------
 // Node
 // ---------------------------------------------------------------------------
@@ -346,7 +361,7 @@ impl Node {
     }
     pub fn with_io(ncfg: NodeCfg, owner: u8, io: MemIO) -> Node {
         let (pk, sk) = key(owner);
-        let wallet = Arc::new(RwLock::new(Wallet::new(sk, pk)));
+        let wallet = Arc::new(RwLock::new(det_wallet(sk, pk)));
         let chain = Blockchain::new(wallet.clone(), ncfg.gp, ncfg.social_stake, 60);
         let mut mempool = Mempool::new(wallet.clone());
         mempool.transactions = det_map();
